@@ -25,6 +25,7 @@ def main(tier, seed):
         design_trace.run(rep, "C09", 400, seed, {"nmax": 12, "na_rate": 0.05, "na_cols": ("x", "f"), "policies": ["drop", "error"], "salt": 10,
                                               "callee_cols": ("C", "I", "S", "T", "np", "fk", "scale", "offset")})
         bad_policy(rep)
+        infinite_is_not_missing(rep)
     else:
         design_mc.run(rep, "C09", seed, n=4, nf=3, ng=2, naops=True)
         for rate in (0.05, 0.15, 0.3):
@@ -32,6 +33,25 @@ def main(tier, seed):
         bad_policy(rep)
     rep.exhaustive = True
     return rep.finish()
+
+
+def infinite_is_not_missing(rep):
+    """Only missing values make a row incomplete: an infinite value in a used column is kept under every policy."""
+    import numpy as np
+    import pandas as pd
+    from formulae import design_matrices
+
+    df = pd.DataFrame({"y": [1.0, 2.0, 3.0, 4.0], "x": [0.5, -np.inf, 2.0, np.inf], "g": ["a", "b", "a", "b"]})
+    for pol in ("drop", "error", "pass"):
+        for text in ("y ~ x", "y ~ np.abs(x) + g", "x ~ g", "y ~ g + (x | g)"):
+            rep.cov["evaluations"] += 1
+            try:
+                dm = design_matrices(text, df, na_action=pol)
+                n = (np.asarray(dm.common.design_matrix).shape[0] if dm.common is not None else 4)
+                if n != 4:
+                    rep.violation({"clause": "row_with_infinite_value_dropped", "site": "design_matrices"}, {"formula": text, "na_action": pol, "rows": int(n)})
+            except Exception as e:  # pylint: disable=broad-except
+                rep.violation({"clause": "complete_data_refused", "site": "design_matrices", "why": "infinite value"}, {"formula": text, "na_action": pol, "error": str(e)[:100]})
 
 
 def bad_policy(rep):
